@@ -203,6 +203,10 @@ fn cmd_check(id: &str, args: &[String]) -> i32 {
         println!("NOTE property={id}: {hung} runs exceeded the tick watchdog and were counted as blocked (termination is judged by C04)");
     }
 
+    let gave_up = gen::GEN_GAVE_UP.load(std::sync::atomic::Ordering::Relaxed);
+    if gave_up > 0 {
+        println!("NOTE property={id}: the scenario generator gave up {gave_up} times (40 plain pilot runs in a row did not finish successfully): the tree under test fails ordinary runs");
+    }
     if let Some(n) = res.cov.counters.get("aborted_items_after_200_hung_runs") {
         println!("NOTE property={id}: {n} work items were not expanded because the tree under test keeps exceeding the watchdog; the coverage of this run is partial");
     }
